@@ -168,6 +168,11 @@ def check_loaded(ctx, rc, tags, fore, rows, case, rng):
                 ctx.violate("rate returned for a point inside a row's box is not that row's rate", rc,
                             observed={"point": [x, y, m], "rate": float(numpy.asarray(val).ravel()[0])}, expected={"row": [r_["x0"], r_["y0"], r_["m"]], "rate": r_["rate"]},
                             tags=dict(t2, clause="lookup-value"))
+    if rows and ctx.evaluations % 5 == 0:
+        r0 = rows[int(sel[0])]
+        ok0, v0, _tb = ctx.call(fore.get_rates, numpy.array([r0["x0"]]), numpy.array([r0["y0"]]), numpy.array([r0["m"]]))
+        ctx.sample({"file_row(lon0,lat0,mag0,rate,flag)": [r0["x0"], r0["y0"], r0["m"], r0["rate"], r0["flag"]], "get_rates_at_lower_corner": float(numpy.asarray(v0).ravel()[0]) if ok0 else repr(v0),
+                    "n_rows": len(rows), "magnitudes": list(map(float, fore.magnitudes))[:5], "region_dh": float(fore.region.dh)})
     # vectorised lookup over all unflagged rows' lower corners
     good = [r_ for r_ in rows if r_["flag"] == 1]
     if good:
